@@ -119,6 +119,7 @@ def run(ctx):
     from . import shared
     shared.no_one_shot_state(ctx, 'R2')
     r3_set_order(ctx, eng, [f for f, _ in entries])
+    shared.no_shared_mutable_defaults(ctx, 'R4')
 
 
 def r3_set_order(ctx, eng, entries):
